@@ -94,11 +94,23 @@ def _generate_unquoted_parts(string, only_printable=False, unsafe=None):
     yield string[previous_match_end:]  # Non-ASCII tail
 
 
+# NOTE: the unicode whitespace str.strip() removes at the ends of an url is
+# written escaped like the ascii space, raw or not, else a second pass would
+# strip it ("http://a.com/x\u3000?")
+UNICODE_SPACE_RE = re.compile(
+    "[ \xa0\u1680\u2000-\u200a\u2028\u2029\u202f\u205f\u3000]"
+)
+
+
+def _normalize_spaces(string):
+    return UNICODE_SPACE_RE.sub(_quote_match, string)
+
+
 # NOTE: here, unsafe must be a container of bytes
 def unquote(string, only_printable=False, unsafe=None, normalize_space=False):
     if "%" not in string:
         if normalize_space:
-            return string.replace(" ", "%20")
+            return _normalize_spaces(string)
 
         return string
 
@@ -107,7 +119,7 @@ def unquote(string, only_printable=False, unsafe=None, normalize_space=False):
     )
 
     if normalize_space:
-        q = q.replace(" ", "%20")
+        q = _normalize_spaces(q)
 
     return q
 
